@@ -51,9 +51,12 @@ type Contract struct {
 	Header        string // func header as written
 	Key           string // fn.String() of the target
 	Inline        bool
+	Callback      bool
 	Pure          bool // result is a function of the (scalar) arguments: callers see UF(args)
 	Trusted       bool // assumed contract: body is not verified (reported as such)
 	Requires      []*Clause
+	Expects       []*Clause // preconditions also checked where the function is inlined (call-site assertions)
+	Cases         []*Clause // case split: the function is verified once per truth assignment of these conditions
 	OnStore       []*Clause // assertions checked before every map update m[key] = val (params: m, key, val)
 	onStoreParams string
 	Assumes       []*Clause // modelling assumptions, assumed at entry (also when inlined); listed in the evidence
@@ -142,12 +145,18 @@ func parseContractFile(path, pkgPath string) (*ContractFile, error) {
 				spec = nil
 			}
 			curClause = nil
-		case kw == "inline" || kw == "func" || kw == "trusted" || kw == "pure":
+		case kw == "inline" || kw == "func" || kw == "trusted" || kw == "pure" || kw == "callback":
 			hdr := tl
 			c := &Contract{Pkg: pkgPath, Dir: cf.Dir, Loops: map[int]*LoopSpec{}, Line: ln, File: path, id: nextID}
 			nextID++
 			if kw == "inline" {
 				c.Inline = true
+				hdr = rest
+			}
+			if kw == "callback" {
+				// a callback checked where it is passed (e.g. by the WalkDir model): inlined, not verified stand-alone
+				c.Inline = true
+				c.Callback = true
 				hdr = rest
 			}
 			if kw == "trusted" {
@@ -190,7 +199,7 @@ func parseContractFile(path, pkgPath string) (*ContractFile, error) {
 			cl.Expr = rest
 			cur.OnStore = append(cur.OnStore, cl)
 			curClause = cl
-		case kw == "requires" || kw == "ensures" || kw == "invariant" || kw == "modifies" || kw == "assume":
+		case kw == "requires" || kw == "ensures" || kw == "invariant" || kw == "modifies" || kw == "assume" || kw == "case" || kw == "expects":
 			if cur == nil {
 				return nil, fmt.Errorf("%s:%d: clause outside a function contract", path, ln)
 			}
@@ -217,6 +226,13 @@ func parseContractFile(path, pkgPath string) (*ContractFile, error) {
 					cl.Label = fmt.Sprintf("pre%d", len(cur.Requires))
 				}
 				cur.Requires = append(cur.Requires, cl)
+			case "case":
+				cur.Cases = append(cur.Cases, cl)
+			case "expects":
+				if cl.Label == "" {
+					cl.Label = fmt.Sprintf("expects%d", len(cur.Expects))
+				}
+				cur.Expects = append(cur.Expects, cl)
 			case "ensures":
 				if cl.Label == "" {
 					cl.Label = fmt.Sprintf("post%d", len(cur.Ensures))
@@ -424,6 +440,12 @@ func ufStr(name string, args ...any) string { return "" }
 func ufInt(name string, args ...any) int { return 0 }
 func callStr(fn string, s string) string { return "" }
 func renderedRange(expr string) string { return "" }
+func inlined() bool { return false }
+func foldStr(n int, f func(i int) string) string { return "" }
+func foldInt(n int, f func(i int) int64) int64 { return 0 }
+func lastBytes(fn string) []byte { return nil }
+func lastStr(fn string) string { return "" }
+func lastTime(fn string) gvc_time.Time { return gvc_time.Time{} }
 func eachStr(pre string, list []string, suf string) string { return "" }
 func callStrs(fn string, s []string) []string { return nil }
 func ufBool(name string, args ...any) bool { return false }
@@ -498,6 +520,14 @@ func (cf *ContractFile) stub() string {
 			cl.StubFn = clauseFnName(c, "req", -1, i)
 			fmt.Fprintf(&b, "\nfunc %s(%s) bool { return %s }\n", cl.StubFn, c.params, cl.Expr)
 		}
+		for i, cl := range c.Expects {
+			cl.StubFn = clauseFnName(c, "exp", -1, i)
+			fmt.Fprintf(&b, "\nfunc %s(%s) bool { return %s }\n", cl.StubFn, c.params, cl.Expr)
+		}
+		for i, cl := range c.Cases {
+			cl.StubFn = clauseFnName(c, "cas", -1, i)
+			fmt.Fprintf(&b, "\nfunc %s(%s) bool { return %s }\n", cl.StubFn, c.params, cl.Expr)
+		}
 		for i, cl := range c.Assumes {
 			cl.StubFn = clauseFnName(c, "asm", -1, i)
 			fmt.Fprintf(&b, "\nfunc %s(%s) bool { return %s }\n", cl.StubFn, c.params, cl.Expr)
@@ -557,7 +587,13 @@ func (cf *ContractFile) allText() string {
 		b.WriteString(s + "\n")
 	}
 	for _, c := range cf.Cs {
-		nstubs := len(c.Requires) + len(c.Ensures) + len(c.Modifies) + len(c.Assumes) + len(c.OnStore)
+		nstubs := len(c.Requires) + len(c.Ensures) + len(c.Modifies) + len(c.Assumes) + len(c.OnStore) + len(c.Cases) + len(c.Expects)
+		for _, cl := range c.Expects {
+			b.WriteString(cl.Expr + "\n")
+		}
+		for _, cl := range c.Cases {
+			b.WriteString(cl.Expr + "\n")
+		}
 		for _, cl := range c.OnStore {
 			b.WriteString(cl.Expr + " " + c.onStoreParams + "\n")
 		}
@@ -630,7 +666,7 @@ var ghostNames = map[string]bool{
 	"gvcModLoc": true, "gvcModGhost": true, "gvcModFlag": true, "gvcModMap": true, "gvcModGlob": true,
 	"fsContent": true, "fsExists": true, "fsReadable": true, "fsIsDir": true, "fsMode": true, "fsSize": true, "fsMTime": true,
 	"fsLink": true, "fsIsLink": true, "ufStr": true, "ufInt": true, "ufBool": true,
-	"errIs": true, "errAsSigningFailure": true, "errMsg": true, "mapHas": true, "bit": true, "isNilFunc": true, "dynType": true, "mergoOverride": true, "deepEq": true, "forallKeys": true, "forallStr": true, "globErr": true, "readerContent": true, "callStr": true, "callStrs": true, "renderedRange": true, "eachStr": true,
+	"errIs": true, "errAsSigningFailure": true, "errMsg": true, "mapHas": true, "bit": true, "isNilFunc": true, "dynType": true, "mergoOverride": true, "deepEq": true, "forallKeys": true, "forallStr": true, "globErr": true, "readerContent": true, "callStr": true, "callStrs": true, "renderedRange": true, "inlined": true, "foldStr": true, "foldInt": true, "lastBytes": true, "lastStr": true, "lastTime": true, "eachStr": true,
 }
 
 func ghostBuiltin(fn *ssa.Function) string {
@@ -725,6 +761,105 @@ func (e *Engine) ghostCall(c *CallCtx, g string, fn *ssa.Function) *Term {
 			return Forall([]*Term{j}, Implies(rng, body))
 		}
 		return Not(Forall([]*Term{j}, Not(And(rng, body))))
+	case "inlined":
+		// true when the function this clause belongs to is being executed inside a caller
+		f := c.fr
+		for f != nil && f.clause {
+			f = f.caller
+		}
+		return BoolT(f != nil && f.caller != nil)
+	case "foldStr", "foldInt":
+		// foldStr(n, f) = f(0) ++ ... ++ f(n-1)   (foldInt: sum).  The fold is an
+		// uninterpreted function of the captured values, of the heap components f
+		// reads and of n, defined by its recurrence; the recurrence is instantiated
+		// at the n asked for (enough for invariant-step and exit reasoning).
+		n := c.args[0]
+		if c.args[1].Op != "int" {
+			panic("fold: closure must be a literal")
+		}
+		cl := e.closureOf(c.args[1].IVal.Int64())
+		var old *State
+		if c.fr != nil {
+			old = c.fr.oldSt
+		}
+		allOld := c.fr != nil && c.fr.oldSt != nil && (c.fr.allOld || c.fr.oldIns[c.instr])
+		elem := func(k *Term) *Term {
+			// evaluated without the current path condition: the recurrence is recorded globally
+			r, _, _ := e.execFunction(cl.fn, []*Term{k}, cl.bindings, c.rd.clone(), True, c.fr, "", old, allOld)
+			return r
+		}
+		probe := elem(Fresh("foldidx", IntS))
+		sub := map[int]bool{}
+		var walk func(t *Term)
+		walk = func(t *Term) {
+			if sub[t.id] {
+				return
+			}
+			sub[t.id] = true
+			for _, a := range t.Args {
+				walk(a)
+			}
+		}
+		// captured variables are passed by reference: the fold depends on their values
+		var bvals []*Term
+		for i, b := range cl.bindings {
+			if i < len(cl.fn.FreeVars) {
+				if pt, ok := cl.fn.FreeVars[i].Type().Underlying().(*types.Pointer); ok && b.Sort == LocS {
+					if _, isStruct := isStructVal(pt.Elem()); !isStruct {
+						b = e.loadPtr(c.rd, pt.Elem(), b)
+					}
+				}
+			}
+			bvals = append(bvals, b)
+			sub[b.id] = true // not searched: the value itself is an argument
+		}
+		walk(probe)
+		var names []string
+		for name := range e.compSorts {
+			if v, ok := c.rd.comps[name]; ok && sub[v.id] {
+				names = append(names, name)
+			} else if !ok {
+				if v := e.comp(c.rd, name); sub[v.id] {
+					names = append(names, name)
+				}
+			}
+		}
+		sort.Strings(names)
+		var args []*Term
+		var sorts []*Sort
+		for _, b := range bvals {
+			if b.Op == "tuple" {
+				continue
+			}
+			args = append(args, b)
+			sorts = append(sorts, b.Sort)
+		}
+		for _, nm := range names {
+			v := e.comp(c.rd, nm)
+			args = append(args, v)
+			sorts = append(sorts, v.Sort)
+		}
+		res, unit := StringS, StrT("")
+		if g == "foldInt" {
+			res, unit = IntS, IntT(0)
+		}
+		u := DeclUF("fold:"+cl.fn.String()+":"+strings.Join(names, ","), res, append(sorts, IntS)...)
+		F := func(k *Term) *Term { return App(u, append(append([]*Term{}, args...), k)...) }
+		fn := F(n)
+		if !e.pureSeen[fn.id] {
+			e.pureSeen[fn.id] = true
+			e.axiom(Implies(Le(n, IntT(0)), Eq(fn, unit)))
+			prev := Sub(n, IntT(1))
+			ek := elem(prev)
+			var step *Term
+			if g == "foldInt" {
+				step = Add(F(prev), ek)
+			} else {
+				step = Concat(F(prev), ek)
+			}
+			e.axiom(Implies(Ge(n, IntT(1)), Eq(fn, step)))
+		}
+		return fn
 	case "ghostStr":
 		return e.ghostGet(st, e.constStr(c.args[1]), StringS, e.objKey(c.args[0]))
 	case "ghostInt":
@@ -773,7 +908,27 @@ func (e *Engine) ghostCall(c *CallCtx, g string, fn *ssa.Function) *Term {
 			ss = append(ss, p.Sort)
 		}
 		rs := map[string]*Sort{"ufStr": StringS, "ufInt": IntS, "ufBool": BoolS}[g]
-		return App(DeclUF(name, rs, ss...), as...)
+		r := App(DeclUF(name, rs, ss...), as...)
+		if name == "zeros" && g == "ufStr" && len(as) == 1 {
+			// zeros(n): n zero bytes (as produced by make([]byte, n) and the archive models)
+			e.axiom(Implies(Ge(as[0], IntT(0)), Eq(StrLen(r), as[0])))
+		}
+		return r
+	case "lastBytes", "lastStr", "lastTime":
+		// call-history ghost: the result of the most recent call of the named function
+		name := e.constStr(c.args[0])
+		if !strings.Contains(name, "/") && c.fr != nil && c.fr.fn.Pkg != nil {
+			name = c.fr.fn.Pkg.Pkg.Path() + "." + name
+		}
+		r, ok := e.callHist["last:"+name]
+		if !ok {
+			e.note("no call of " + name + " was observed")
+			return Fresh("nocall", e.tr.sortOf(fn.Signature.Results().At(0).Type()))
+		}
+		if r.Op == "tuple" {
+			r = r.Elems[0]
+		}
+		return r
 	case "renderedRange":
 		// call-history ghost: the text the template executor rendered for the range over the named pipeline
 		r, ok := e.callHist["range:"+e.constStr(c.args[0])]
